@@ -23,6 +23,7 @@ type everythingOpts struct {
 	NatFaults   bool
 	Export      bool
 	Crash       bool
+	Sim         bool // F-simulate overlay
 	Sig         bool
 	Adversarial bool
 	Blocks      [2]int
@@ -112,6 +113,9 @@ func buildEverything(seed uint64, prop string, o everythingOpts) (*kernel.Trace,
 		maxTxs = 4
 	}
 	src := &genSource{rng: rr, nBlocks: rr.Range(o.Blocks[0], o.Blocks[1]), MaxTxs: maxTxs, PTx: 0.8, TxGens: gens, Cadence: ew.cadence}
+	if o.Sim {
+		simOverlay(src, spec)
+	}
 	active := map[string]bool{}
 	src.BlockHook = func(run *kernel.Run, g *kernel.Rng, b *kernel.Block, idx int) {
 		if o.BankInj {
